@@ -694,7 +694,9 @@ func (h *handler1) handleSubscribe(ctx context.Context, snSubscribe *snPkts1.Sub
 		topic = string(snSubscribe.TopicName)
 		if !hasWildcard(topic) {
 			var err error
-			topicID, err = h.newTopicID()
+			// A topic already registered (by REGISTER or an earlier
+			// SUBSCRIBE) keeps its TopicID.
+			topicID, err = h.registerTopic(topic)
 			if err != nil {
 				snSuback := snPkts1.NewSuback(0, snPkts1.RC_INVALID_TOPIC_ID, 0)
 				// We are kind of misusing the "invalid topic ID" return code here.
